@@ -160,6 +160,8 @@ pub fn wrap_cells(thorough: bool) -> Vec<Value> {
             for ws in wss {
                 v.push(json!({"srv": s.to_json(), "upload": upload, "ws": ws, "blocks": 65540}));
             }
+            // exactly 65536 blocks: the last block carries wire number 0
+            v.push(json!({"srv": s.to_json(), "upload": upload, "ws": 32, "blocks": 65535}));
         }
     }
     v
